@@ -582,10 +582,12 @@ def pos_choice(rng, T):
     """sample position in [0,T): boundary heavy (first two, last six)."""
     u = rng.random()
     if u < 0.30:
-        return max(0, T - 1 - rng.randrange(0, 6))
-    if u < 0.38:
-        return rng.randrange(0, 2)
-    return rng.randrange(0, T)
+        p = T - 1 - rng.randrange(0, 6)
+    elif u < 0.38:
+        p = rng.randrange(0, 2)
+    else:
+        p = rng.randrange(0, T)
+    return min(T - 1, max(0, p))        # every T >= 1, however short
 
 
 def gen_spike_trace(rng, T, p, pol, A, frac, d, noise):
@@ -597,6 +599,7 @@ def gen_spike_trace(rng, T, p, pol, A, frac, d, noise):
         v += -pol * A * frac * math.exp(-((t - p - d) / 3.0) ** 2)
         v += -pol * A * 0.15 * math.exp(-((t - p + 3) / 2.0) ** 2)
         x[t] = int(round(v)) + (rng.randint(-noise, noise) if noise else 0)
+    p = min(T - 1, max(0, p))
     x[p] = pol * (A + noise + 1)          # unique extremum at p unless the trough is bigger
     return x
 
@@ -653,7 +656,7 @@ def gen_wave(rng, T, C, kind):
         a = rng.randrange(2, 300)
         x = [rng.randint(-a + 1, a - 1) for _ in range(T)]
         x[0] = rng.choice([a, -a, a])
-        if rng.random() < 0.5:
+        if rng.random() < 0.5 and T >= 2:
             x[rng.randrange(1, T)] = -a + 1 if x[0] > 0 else a - 1
         cols = [x] + [[rng.randint(-a // 2, a // 2) for _ in range(T)] for _ in range(C - 1)]
     elif kind == "flat":           # constant / all-zero traces
